@@ -278,6 +278,45 @@ def check_unbudgeted_locks(eng, run):
     run.floor("C11.thread budgeted client methods", n, 8)
 
 
+def check_infinite_wait_error(eng, run, rule="C11.thread"):
+    """in the selector retry loop, the error raised for 'an infinite wait came back empty' is reachable only after the *unbounded*
+    `select()` call: after a bounded select(wait) that merely expired (the periodic retry wake-up) the loop must go round again, not fail
+    the blocked caller"""
+    from sa.analyses.base import RuleAnalysis
+    retry = eng.db.fn("lowlevel.api_sync.transports.base_selector:SelectorBaseTransport._retry")
+
+    class Sel(RuleAnalysis):
+        tokens = ("Exception",)
+        inline_helpers = True
+
+        def __init__(self, e):
+            super().__init__(e)
+            self.viol = []
+            self.raises = 0
+
+        def initial(self, f):
+            return ["none"]
+
+        def may_raise(self, node, fact):
+            return ["Exception"] if isinstance(node, ast.Call) and not (isinstance(node.func, ast.Attribute) and node.func.attr == "select") else []
+
+        def transfer(self, node, fact):
+            if isinstance(node, ast.Call) and isinstance(node.func, ast.Attribute) and node.func.attr == "select":
+                return ["bounded" if (node.args or node.keywords) else "unbounded"]
+            if isinstance(node, ast.Raise) and node.exc is not None and "RuntimeError" in ast.unparse(node.exc) and fact != "none":
+                self.raises += 1
+                if fact == "bounded" and node not in self.viol:
+                    self.viol.append(node)
+            return [fact]
+
+    an = Sel(eng)
+    Interp(an, retry).run()
+    for v in an.viol[:1]:
+        run.finding(rule, retry, v, "the 'infinite wait came back empty' error can be raised after a *bounded* select() that merely expired: with timeout=None and a finite retry interval a sender blocked "
+                    "longer than the interval fails in the middle of its packet and the next sender's packet follows a truncated one")
+    run.ob(rule, f"{retry.short}:empty-select-error-only-after-unbounded-select", not an.viol, raises=an.raises)
+
+
 def check_zero_is_not_none(eng, run):
     """a zero timeout is a value of its own ('never blocks'), not an absent one: no timeout / delay / deadline parameter or attribute is
     ever tested by truthiness (`timeout or inf`, `if not timeout:`, `x if timeout else y`) - that turns 0 into 'no timeout'"""
@@ -365,6 +404,7 @@ def run(eng, run):
     run.attempt(check_unbudgeted_locks, eng, run)
     run.attempt(check_zero_is_not_none, eng, run)
     run.attempt(check_one_clock, eng, run)
+    run.attempt(check_infinite_wait_error, eng, run)
     # a send loop that stops making progress (an empty chunk that is never dropped) spins for ever, whatever the timeout
     from rules import c04
     from sa.report import RuleAlias
